@@ -6,6 +6,9 @@
 //! from the missing output line.
 mod common;
 mod fam_ans;
+mod fam_models;
+mod fam_chain;
+mod fam_bits;
 mod fam_leaky;
 mod fam_diag;
 mod fam_floatq;
@@ -23,6 +26,9 @@ fn run_case(family: &str, input: &[Int]) -> Vec<Int> {
     let mut out = Vec::new();
     match family {
         "ans" => fam_ans::run(&mut r, &mut out),
+        "models" => fam_models::run(&mut r, &mut out),
+        "chain" => fam_chain::run(&mut r, &mut out),
+        "bits" => fam_bits::run(&mut r, &mut out),
         "leaky" => fam_leaky::run(&mut r, &mut out),
         "diag" => fam_diag::run(&mut r, &mut out),
         "floatq" => fam_floatq::run(&mut r, &mut out),
